@@ -146,7 +146,14 @@ pub fn wt_server_task(tc: TaskCtx, net: Net, cfg: Cfg, prog: Vec<Value>, plain_h
                     match r {
                         Ok(Some(AcceptedBi::BidiStream(sid, mut s))) => {
                             let id = s.recv_id().into_inner();
-                            let mut v = read_all(&tc, &mut s, "accept_bi", id).await;
+                            // `split`: the application splits the stream before reading (what was buffered behind the header
+                            // must come out of the receiving half)
+                            let mut v = if op["split"] == true {
+                                let (_snd, mut rcv) = h3::quic::BidiStream::<Bytes>::split(s);
+                                read_all(&tc, &mut rcv, "accept_bi", id).await
+                            } else {
+                                read_all(&tc, &mut s, "accept_bi", id).await
+                            };
                             v["session"] = json!(sess(sid));
                             v["sid"] = json!(id);
                             tc.ret("accept_bi", v);
